@@ -11,10 +11,21 @@ export CARGO_TARGET_DIR=$wt/target CARGO_NET_OFFLINE=true
 cd $wt
 if ! git apply $dst/patch.diff; then echo "PATCH DOES NOT APPLY to current HEAD"; git -C /repo worktree remove --force $wt; exit 4; fi
 suite_fail=$(cargo test --offline 2>&1 | grep -E "^test result" | grep -vc "ok\.")
-cp $dst/demo.rs tests/demo_seed.rs
-cargo test --offline --test demo_seed >/tmp/ev_$id.with.log 2>&1; with_rc=$?
-git checkout -q -- src
-cargo test --offline --test demo_seed >/tmp/ev_$id.without.log 2>&1; without_rc=$?
+# DEMO_MODE: test (default) = demo.rs fails with the patch / passes without; noalloc = same under --no-default-features;
+#            compile = conflict.rs must COMPILE with the patch (property broken) and be rejected without it
+mode=${DEMO_MODE:-test}
+if [ "$mode" = compile ]; then
+  cp $src/conflict.rs $dst/conflict.rs 2>/dev/null; cp $dst/conflict.rs tests/demo_seed.rs
+  cargo test --offline --test demo_seed --no-run >/tmp/ev_$id.with.log 2>&1; c=$?; with_rc=$(( c == 0 ? 101 : 0 ))   # compiling = broken
+  git checkout -q -- src
+  cargo test --offline --test demo_seed --no-run >/tmp/ev_$id.without.log 2>&1; c=$?; without_rc=$(( c == 0 ? 101 : 0 ))
+else
+  extra=""; [ "$mode" = noalloc ] && extra="--no-default-features"
+  cp $dst/demo.rs tests/demo_seed.rs
+  cargo test --offline $extra --test demo_seed >/tmp/ev_$id.with.log 2>&1; with_rc=$?
+  git checkout -q -- src
+  cargo test --offline $extra --test demo_seed >/tmp/ev_$id.without.log 2>&1; without_rc=$?
+fi
 cd /verif; git -C /repo worktree remove --force $wt; rm -rf $wt
 echo "seed $id: suite_failing_groups_with_patch=$suite_fail demo_rc_with_patch=$with_rc demo_rc_without_patch=$without_rc"
 # run the checks against the patched /repo
